@@ -5,7 +5,7 @@
 
   Lines:  cfg <base> | var <0|1> <rate µs> <N|int> | start
           sub <cb|~> <timeout|~> | renew <k|u> <cb|~> <timeout|~> | unsub <k|u|~>
-          set <x> <v> | adv <dt µs> | done <k> | setkey <sid> <k>
+          set <x> <v> | burst <x>=<v>,... | adv <dt µs> | done <k> | setkey <sid> <k>
           o resp <status> <sid|~> <granted|~> | o notify <sid> <seq> <t> <url> <body> | o trig <x> <t> | o ret <sid>
   Text travels as hex tokens (`-` = empty string, `~` = absent).
 -/
@@ -78,6 +78,12 @@ def parseOp : List String → Option Op
   | ["renew", sid, cb, to] => do pure (.subscribe (← parseSid sid) (← optStr cb) (← optStr to))
   | ["unsub", sid] => do pure (.unsubscribe (← parseSid sid))
   | ["set", x, v] => do pure (.set (← x.toNat?) (← v.toInt?))
+  | ["burst", l] => do
+      let ps ← (l.splitOn ",").mapM fun t =>
+        match t.splitOn "=" with
+        | [a, b] => do pure ((← a.toNat?), (← b.toInt?))
+        | _ => none
+      pure (.setMany ps)
   | ["adv", dt] => do pure (.adv (← dt.toNat?))
   | ["done", k] => do pure (.done (← k.toNat?))
   | ["setkey", sid, k] => do pure (.setKey (← sid.toNat?) (← k.toNat?))
